@@ -118,6 +118,13 @@ def wl_bloom(ctx, rng, case):
             buf[i] ^= 0xFF  # the caller re-uses its buffer
         ctx.check(bytes(tb) == data, f"{what}: a filter loaded from a bytearray changed when the caller overwrote that buffer (shared storage)")
         ctx.count("aliasing_checks")
+        # several export+load cycles in a row, alternating the channels
+        t = s
+        for cyc in range(3):
+            t = cls.frombytes(bytes(t), **bl.kw_hash(hf)) if cyc % 2 == 0 else cls(hex_string=t.export_hex(), **bl.kw_hash(hf))
+        compare(ctx, s, t, BLOOM_ACC, MEMBER_Q, probe, f"{what} after 3 export+load cycles")
+        ctx.check(bytes(t) == data, f"{what}: bytes drift over repeated export+load cycles")
+        ctx.count("chained_reload_checks")
         for lname, ld in loaders.items():
             t = ld()
             ctx.check(type(t) is cls, f"{what}: loader {lname} returned a {type(t).__name__}")
@@ -407,6 +414,12 @@ def wl_cuckoo(ctx, rng, case):
             acc.append(("unique_elements", lambda o: o.unique_elements))
         if any(0 < len(b) < s.bucket_size for b in s.buckets):
             ctx.count("states_with_partially_filled_buckets")
+        t = s
+        for cyc in range(3):
+            t = list(loaders.values())[cyc % len(loaders)]() if cyc == 0 else resupply(cls.frombytes(bytes(t), **({"error_rate": err} if by_error_rate else {}), **kw))
+        compare(ctx, s, t, acc, MEMBER_Q, keys + ["never-added"], f"{cls.__name__} after 3 export+load cycles")
+        ctx.check(bytes(t) == data, f"{cls.__name__}: bytes drift over repeated export+load cycles")
+        ctx.count("chained_reload_checks")
         for lname, ld in loaders.items():
             t = ld()
             ctx.check(type(t) is cls, f"{cls.__name__}: loader {lname} returned a {type(t).__name__}")
